@@ -15,7 +15,11 @@ AlphabetFull ==
    [k |-> "ins", mn |-> "MOV", ops |-> <<[t |-> "r", w |-> 32, n |-> 0], [t |-> "i", v |-> 1, sty |-> "d"]>>],
    [k |-> "ins", mn |-> "NOP", ops |-> << >>],
    [k |-> "resb", e |-> Num(1)], [k |-> "resb", e |-> Num(126)], [k |-> "alignb", v |-> 4],
-   [k |-> "org", v |-> 31744], [k |-> "bits", v |-> 32]}
+   [k |-> "org", v |-> 31744], [k |-> "bits", v |-> 32],
+   \* a directive that emits nothing, an EQU whose body is the address of its own statement, and a use of that name
+   [k |-> "cfg", mn |-> "SECTION", s |-> ".data"],
+   [k |-> "equ", nm |-> "q", e |-> [o |-> "+", a |-> [o |-> "$"], b |-> Num(2)]],
+   [k |-> "data", mn |-> "DW", items |-> <<[t |-> "e", e |-> [o |-> "id", nm |-> "q"]]>>]}
 
 AlphabetSmall ==
   {Lab("a"), Br("JMP", "a"), Br("JE", "a"), Br("CALL", "a"),
